@@ -164,9 +164,12 @@ Pols(objs) == {o \in objs : o.kind = "netpol"}
 ExtPort(e) == IF e.as = 0 THEN e.port ELSE e.as
 ShouldBeIngress(e) == e.proto = "TCP" /\ e.global /\ ExtPort(e) = 80
 AllExposes(svcs) == UNION {KRange(svcs[i].exposes) : i \in DOMAIN svcs}
-\* "ports the tenant exposed globally": read per lease and by either number the tenant wrote (container port or
-\* `as` port) -- the weakest reading of the statement (DESIGN 5.1)
-GlobalPorts(svcs) == UNION {{<<e.proto, e.port>>, <<e.proto, ExtPort(e)>>} : e \in {x \in AllExposes(svcs) : x.global}}
+\* "ports the tenant exposed globally": the global exposes of the service the pod belongs to (a policy selecting the
+\* pods of service s may open to the outside only what s exposes globally), by either number the tenant wrote
+\* (container port or `as` port), in any manifest of the lease deployed so far (svcs = all of them, flattened)
+GlobalPortsOf(svcs, name) ==
+  UNION {{<<e.proto, e.port>>, <<e.proto, ExtPort(e)>>} :
+           e \in {x \in UNION {KRange(svcs[i].exposes) : i \in {j \in DOMAIN svcs : svcs[j].name = name}} : x.global}}
 Flip(p) == IF p = "TCP" THEN "UDP" ELSE "TCP"
 IngressPorts(svcs) ==
   UNION {{<<e.proto, e.port>>, <<e.proto, ExtPort(e)>>, <<Flip(e.proto), e.port>>, <<Flip(e.proto), ExtPort(e)>>} : e \in AllExposes(svcs)}
@@ -178,13 +181,13 @@ IsDNS(port) == port[2] = 53
 \* C11, network clauses. Witness sets (empty = holds) so that a failure names its packet class.
 \* extra: further remote endpoints (the pods of another lease actually generated into the same cluster)
 BadIngressX(objs, svcs, extra) ==
-  LET pols == Pols(objs) gp == GlobalPorts(svcs) IN
+  LET pols == Pols(objs) IN
   {<<t[2].tag, t[3]>> : t \in
      {t \in LocalPods(objs) \X (Remote \cup extra) \X IngressPorts(svcs) :
         /\ t[2].kind = "ext" \/ t[2].ns # t[1].ns
         /\ Admits(pols, "Ingress", t[1], t[2], t[3])
         /\ ~FromIngressController(t[2])
-        /\ t[3] \notin gp}}
+        /\ t[3] \notin GlobalPortsOf(svcs, t[1].tag)}}
 BadEgressX(objs, extra) ==
   LET pols == Pols(objs) IN
   {<<t[2].tag, t[3]>> : t \in
